@@ -80,7 +80,7 @@ def replay(ctx, rec, pid=PID, backend=BACKEND):
   name, src, kind = rp.get('design'), rp.get('design_source'), rp.get('kind')
   if kind in ('gen', 'directed', 'flat') and src:
     cls, _ = sc.load_source(ctx, src, name)
-    d = sv.Design(name, cls, source=src, kind=kind)
+    d = sv.Design(name, cls, source=src, kind=kind, limits=[tuple(l) for l in rp.get('design_limits', [])])
   else:
     pool = {x.name: x for x in sv.stdlib_designs('thorough') + sv.testcase_designs()}
     if name not in pool:
